@@ -714,7 +714,22 @@ func (x *fnv) noteCallWrites(call *ast.CallExpr, w *writeSet) {
 }
 
 // havocLoop makes everything the loop may write arbitrary and returns the names of the regions.
-func (x *fnv) havocLoop(s *State, w *writeSet, lc *LoopContract, tag string) []string {
+// loopTargets evaluates `loop N: modifies ...` in the pre-loop state: the targets must be loop
+// invariant, otherwise "cells outside the targets are unchanged since loop entry" is not inductive.
+func (x *fnv) loopTargets(pre *State, lp *loopCtx) {
+	lp.targets, lp.refined = nil, false
+	if lp.lc == nil || len(lp.lc.Modifies) == 0 {
+		return
+	}
+	lp.refined = true
+	env := x.newSpecEnv(pre.Clone(), x.entry, x.pkg.PkgPath)
+	x.bindLocals(env, lp)
+	for _, cl := range lp.lc.Modifies {
+		lp.targets = append(lp.targets, env.evalModTargets(cl.Expr)...)
+	}
+}
+
+func (x *fnv) havocLoop(s *State, w *writeSet, lp *loopCtx, tag string) []string {
 	c := x.c
 	objs := make([]types.Object, 0, len(w.vars))
 	for o := range w.vars {
@@ -743,20 +758,13 @@ func (x *fnv) havocLoop(s *State, w *writeSet, lc *LoopContract, tag string) []s
 	sortStrings(regions)
 	regions = dedup(regions)
 	// refinement: `loop N: modifies ...` restricts what pre-existing cells may change
-	var targets []modTarget
-	if lc != nil && len(lc.Modifies) > 0 {
-		env := x.newSpecEnv(s, x.entry, x.pkg.PkgPath)
-		x.bindLocals(env, nil)
-		for _, cl := range lc.Modifies {
-			targets = append(targets, env.evalModTargets(cl.Expr)...)
-		}
-	}
+	targets := lp.targets
 	for _, rn := range regions {
 		m := s.mem[rn]
 		if m == nil {
 			continue
 		}
-		if targets == nil {
+		if !lp.refined {
 			s.mem[rn] = c.Havoc(m, tag, func(ref, idx *Term) *Term { return c.False() })
 			continue
 		}
@@ -803,6 +811,9 @@ type loopCtx struct {
 	roleVars map[string]types.Object
 	seen     *Mem
 	pos      token.Pos
+	targets  []modTarget
+	refined  bool
+	preTop   *Term
 }
 
 // checkInvariants emits one obligation per invariant clause.
@@ -844,16 +855,11 @@ func (x *fnv) variant(s *State, lp *loopCtx) *Term {
 
 // loopFrame checks a refined loop write set: cells outside `loop N: modifies` are unchanged by one iteration.
 func (x *fnv) loopFrame(head, end *State, lp *loopCtx, regions []string, pos token.Pos) {
-	if lp.lc == nil || len(lp.lc.Modifies) == 0 {
+	if !lp.refined {
 		return
 	}
 	c := x.c
-	env := x.newSpecEnv(head, x.entry, x.pkg.PkgPath)
-	x.bindLocals(env, lp)
-	var targets []modTarget
-	for _, cl := range lp.lc.Modifies {
-		targets = append(targets, env.evalModTargets(cl.Expr)...)
-	}
+	targets := lp.targets
 	for _, rn := range regions {
 		mh, me := head.mem[rn], end.mem[rn]
 		if mh == nil || me == nil || mh == me {
@@ -864,7 +870,7 @@ func (x *fnv) loopFrame(head, end *State, lp *loopCtx, regions []string, pos tok
 		if mh.Arity == 2 {
 			idx = c.Fresh("fr_idx", SInt)
 		}
-		pre := []*Term{c.Le(ref, head.allocTop), c.Ge(ref, c.Int(0))}
+		pre := []*Term{c.Le(ref, lp.preTop), c.Ge(ref, c.Int(0))}
 		for _, tg := range targets {
 			if regionHasPrefix(rn, tg.prefix) {
 				pre = append(pre, c.Not(tg.match(ref, idx)))
@@ -900,7 +906,9 @@ func (x *fnv) execFor(s *State, st *ast.ForStmt, label string) (out flows) {
 	x.checkInvariants(s, lp, "init", st.Pos())
 	w := x.loopWrites(st.Body, st.Cond, st.Post)
 	head := s.Clone()
-	regions := x.havocLoop(head, w, lp.lc, fmt.Sprintf("loop%d", ord))
+	x.loopTargets(s, lp)
+	lp.preTop = s.allocTop
+	regions := x.havocLoop(head, w, lp, fmt.Sprintf("loop%d", ord))
 	x.assumeInvariants(head, lp)
 	v0 := x.variant(head, lp)
 	var exit []*State
@@ -996,7 +1004,9 @@ func (x *fnv) execRange(s *State, st *ast.RangeStmt, label string) (out flows) {
 		lp.role["$len"] = Value{T: it, Term: n}
 		x.checkInvariants(s, lp, "init", st.Pos())
 		head := s.Clone()
-		regions := x.havocLoop(head, w, lp.lc, fmt.Sprintf("loop%d", ord))
+		x.loopTargets(s, lp)
+		lp.preTop = s.allocTop
+		regions := x.havocLoop(head, w, lp, fmt.Sprintf("loop%d", ord))
 		i := c.Fresh("i", SInt)
 		head.Assume(c.And(c.Le(c.Int(0), i), c.Le(i, n)))
 		lp.role["$i"] = Value{T: it, Term: i}
@@ -1093,7 +1103,9 @@ func (x *fnv) execRangeMap(s *State, st *ast.RangeStmt, label string, lp *loopCt
 	x.checkInvariants(s, lp, "init", st.Pos())
 
 	head := s.Clone()
-	regions := x.havocLoop(head, w, lp.lc, fmt.Sprintf("loop%d", ord))
+	x.loopTargets(s, lp)
+	lp.preTop = s.allocTop
+	regions := x.havocLoop(head, w, lp, fmt.Sprintf("loop%d", ord))
 	seenH := c.NewBaseMem(seenName, 1, SBool, "head")
 	n := c.Fresh("n", SInt)
 	head.Assume(c.And(c.Le(c.Int(0), n), c.Le(n, card0)))
